@@ -11,6 +11,10 @@ CHECKS = {
          "bounded-exhaustive input enumeration on the real JIT: every (operator, int type) on all operand pairs of the bounded domain and every built-in on the cross product of edge domains, each call in a crash-isolated worker",
          "Every integer operator of every width runs on ALL 65 536 operand pairs (8-bit; thorough: all 2^32 pairs for 16-bit) or on the boundary cross product (wider types), and every built-in runs on the full cross product of per-parameter edge domains; the oracle is survival of the worker process, so any trap, abort or panic across the FFI boundary on any enumerated input is reported with the exact operands. Exhaustive inside the stated bounds, real compiled code, no sampling.",
          "Values strictly between boundary values for >=32-bit operands are not enumerated; x86-64 only; resource-exhaustion excluded by construction."),
+ "C16": ("4/C16",
+         "stateless model checking of the real List/ErasedList/RawList code: controlled scheduler over real OS threads, all interleavings up to a preemption bound at lock-acquisition / element-pointer-use granularity (exact blocking via try_lock probe), with stale-pointer, lockset, deadlock and brute-force linearizability oracles",
+         "All programs of 2 threads x 2 operations over a 10-operation menu (thorough: 17 operations unbounded, plus 2x3 and 3x2 shapes at bound 3) on two colliding lists, one pre-filled to capacity so that a push relocates, in both address orders of the two lists; for each program EVERY schedule with at most 2 preemptions is executed on the real code. Each execution is checked for use of an element pointer whose buffer generation changed (deterministic use-after-free detector), element reads outside the critical section (lockset probe), deadlock (no enabled thread), linearizability of the recorded call/return history against the Vec model (brute force) and final contents.",
+         "Schedule points exist only where hook lines are (a lint fails the check with exit 2 when a .lock() in list.rs has no hook line before it); sequentially consistent interleavings only (no weak-memory effects); Arc reference counting trusted."),
 }
 
 NOT_YET = {
